@@ -1,8 +1,1262 @@
-//! C12 — not built yet.
+//! C12 — CKKS encoding is the rounded scaled canonical embedding on every path.
+//!
+//! E1 sections:
+//!  * `embedding`  the reference itself: slot order (generator 3, conjugate slots) of the naive O(N^2)
+//!                 embedding against encode/decode of every unit slot vector (1 and i), N = 2..16 (64 thorough)
+//!  * `vector`     `encode_c64_array`: complex alphabet^slots (N <= 4), unit / constant / prefix / mixed vectors beyond
+//!  * `single`     `encode_f64_single`, `encode_c64_single`, `encode_i64_single`
+//!  * `coefflist`  `encode_f64_polynomial`: lists of every length 1..N
+//!  * `decode_borrow` decoding of negative coefficients when a word of the total modulus is smaller than the
+//!                 corresponding word of the magnitude (word-wise subtraction in doubles cancels)
+//! each of the middle three over: prime chains x every level (key level included) x scale grid crossing the
+//! 64- and 128-bit paths from both sides (plus non-positive / NaN / oversized scales) x value groups
+//! (plain alphabet, 2^64 / 2^128 edge values, values placed around 2^(B-3), q/2, 2^(B-1), q).
+//!
+//! Oracle: the plaintext is taken back to coefficients (library inverse NTT, confirmed by the naive forward
+//! NTT of `refmodel::poly` with the table's root), CRT-composed and centred with `BigU`/`BigI` into ONE integer
+//! vector c, which is compared with round(scale * naive inverse embedding of the input) (`refmodel::embed`).
+
 use crate::engine::*;
+use crate::he::*;
+use crate::refmodel::bigu::*;
+use crate::refmodel::embed::*;
+use crate::refmodel::poly::naive_ntt;
+use heathcliff::{CKKSEncoder, ContextData, HeContext, Plaintext, ValCheck};
+type ContextDataPointer = Arc<ContextData>;
+use num_complex::Complex;
+use serde::{Deserialize, Serialize};
+use std::collections::BTreeSet;
+use std::sync::Arc;
+use std::time::Duration;
 
-pub fn describe(_rep: &Report) {}
+pub fn describe(rep: &Report) {
+    rep.set_rule(
+        "case = (explicit prime chain, level given as number of primes, entry point, scale, value group); the check loops over \
+         ALL values of the group (traces_validated_against_impl counts the individual encode calls judged: accepted ones compared \
+         coefficient-wise with the big-integer reference and decoded again, refused ones compared with the admissibility model). \
+         non-trivial = at least one accepted encoding with a non-zero coefficient vector was compared.",
+    );
+    rep.assume("reference: naive O(N^2) embedding with libm sin/cos in the slot order zeta^(3^j), self-tested (round trip, slot exponents) and validated against the library on every unit vector in section `embedding`");
+    rep.assume("double-precision allowance per coefficient: 1/2 + N*max(1,log2 N)*2^-52*scale*|v|_inf for the vector/complex entry points; exact equality with round(v*scale) for the real, integer and coefficient-list entry points whenever v*scale is a double (always for power-of-two scales), else 1 + 2^-52*|v*scale|");
+    rep.assume("admissibility model: scale must be > 0 (NaN is not) and < 2^(B-1), B = bit length of the level's modulus q; magnitudes below 2^(B-3) must be accepted, magnitudes >= q/2 (no centred representative) must be refused, in between either answer is accepted but an accepted encoding must be correct; a refusal must be an [Invalid argument] panic (an arithmetic-overflow panic is a refusal only in overflow-checked builds)");
+    rep.assume("scales and scaled magnitudes are kept below 2^1000 (doubles end at 2^1024); NaN input values and the empty coefficient list are observed, not judged");
+    rep.assume("prime chains: the largest NTT primes of the stated bit sizes (he::chain) plus one searched chain whose modulus has a small low word; not every prime of 20..60 bits");
+}
 
-pub fn sections(_cfg: &RunCfg) -> Vec<Box<dyn AnySection>> {
-    vec![]
+// ---------------------------------------------------------------------------------------------
+// case description
+// ---------------------------------------------------------------------------------------------
+
+#[derive(Serialize, Deserialize, Clone, Copy, Debug, PartialEq, Eq, Hash)]
+pub enum Entry {
+    C64Array,
+    F64Single,
+    C64Single,
+    I64Single,
+    F64Poly,
+}
+
+impl Entry {
+    fn name(self) -> &'static str {
+        match self {
+            Entry::C64Array => "c64_array",
+            Entry::F64Single => "f64_single",
+            Entry::C64Single => "c64_single",
+            Entry::I64Single => "i64_single",
+            Entry::F64Poly => "f64_polynomial",
+        }
+    }
+    /// the vector / complex entry points go through the FFT (approximate), the others are exact
+    fn approx(self) -> bool {
+        matches!(self, Entry::C64Array | Entry::C64Single)
+    }
+}
+
+#[derive(Serialize, Deserialize, Clone, Copy, Debug, PartialEq)]
+pub enum Sc {
+    /// 2^e
+    Pow2(i32),
+    /// m * 2^e with a short decimal m
+    Mul { m: f64, e: i32 },
+    Zero,
+    NegZero,
+    /// -(2^e)
+    Neg(i32),
+    Nan,
+    Inf,
+    NegInf,
+}
+
+impl Sc {
+    pub fn value(self) -> f64 {
+        match self {
+            Sc::Pow2(e) => 2f64.powi(e),
+            Sc::Mul { m, e } => m * 2f64.powi(e),
+            Sc::Zero => 0.0,
+            Sc::NegZero => -0.0,
+            Sc::Neg(e) => -(2f64.powi(e)),
+            Sc::Nan => f64::NAN,
+            Sc::Inf => f64::INFINITY,
+            Sc::NegInf => f64::NEG_INFINITY,
+        }
+    }
+    fn class(self) -> &'static str {
+        match self {
+            Sc::Pow2(_) | Sc::Mul { .. } => "positive",
+            Sc::Zero | Sc::NegZero => "zero",
+            Sc::Neg(_) | Sc::NegInf => "negative",
+            Sc::Nan => "nan",
+            Sc::Inf => "inf",
+        }
+    }
+}
+
+#[derive(Serialize, Deserialize, Clone, Copy, Debug, PartialEq, Eq, Hash)]
+pub enum Group {
+    /// the property's value alphabet
+    Plain,
+    /// values whose scaled magnitude sits just below / exactly at / just above a power of two (2^63..2^65, 2^127..2^129 with the scale grid)
+    Edge,
+    /// values placed relative to the level's modulus: 2^(B-3), 2^(B-2), q/2, 2^(B-1), q, 2^B (both sides, both signs), infinities
+    Fit,
+}
+
+#[derive(Serialize, Deserialize, Clone, Debug)]
+pub struct Case {
+    pub spec: ParamSpec,
+    /// number of primes of the level encoded at (spec.q.len() = key level)
+    pub level_primes: usize,
+    pub entry: Entry,
+    pub scale: Sc,
+    pub group: Group,
+}
+
+#[derive(Serialize, Deserialize, Clone, Debug)]
+pub struct EmbCase {
+    pub spec: ParamSpec,
+    pub slot: usize,
+    /// false: value 1, true: value i
+    pub imag: bool,
+}
+
+// ---------------------------------------------------------------------------------------------
+// inputs
+// ---------------------------------------------------------------------------------------------
+
+type C = (f64, f64);
+
+#[derive(Clone, Debug)]
+enum Input {
+    Arr(Vec<C>),
+    F(f64),
+    Cx(C),
+    I(i64),
+    Poly(Vec<f64>),
+}
+
+fn complex_alphabet() -> Vec<C> {
+    let p30 = 2f64.powi(30);
+    let p60 = 2f64.powi(60);
+    vec![
+        (0.0, 0.0),
+        (1.0, 0.0),
+        (-1.0, 0.0),
+        (0.5, 0.0),
+        (-0.5, 0.0),
+        (0.0, 1.0),
+        (0.0, -1.0),
+        (1.0, 1.0),
+        (-1.0, -1.0),
+        (1024.0, 0.0),
+        (-1024.0, 0.0),
+        (p30, -p30),
+        (-p30, p30),
+        (p60, 0.0),
+        (-p60, 0.0),
+        (-0.75, 0.25),
+        (5e6, -3.0),
+        (0.0, -p60),
+    ]
+}
+
+fn real_alphabet() -> Vec<f64> {
+    let p30 = 2f64.powi(30);
+    let p60 = 2f64.powi(60);
+    let mut v = vec![0.0, -0.0];
+    for x in [0.25, 0.5, 1.0, 1.5, 3.0, 1024.0, 5e6, p30, p30 + 1.0, 2f64.powi(53) - 1.0, p60, 0.3] {
+        v.push(x);
+        v.push(-x);
+    }
+    v
+}
+
+fn edge_reals() -> Vec<f64> {
+    let below = 1.0 - 2f64.powi(-53);
+    let above = 1.0 + 2f64.powi(-52);
+    let mut v = vec![];
+    for x in [below, 1.0, above, 0.5 * below, 0.5, 2.0 * above, 2.0] {
+        v.push(x);
+        v.push(-x);
+    }
+    v
+}
+
+/// next double above / below a positive finite double
+fn next_up(x: f64) -> f64 {
+    f64::from_bits(x.to_bits() + 1)
+}
+fn next_down(x: f64) -> f64 {
+    f64::from_bits(x.to_bits() - 1)
+}
+
+/// positive magnitudes around the thresholds of a modulus q with B bits (doubles, each checked against BigU later)
+fn fit_magnitudes(q: &BigU) -> Vec<f64> {
+    let b = q.bits() as i32;
+    let mut v = vec![];
+    for e in [b - 4, b - 3, b - 2, b - 1, b] {
+        if (1..1000).contains(&e) {
+            let p = 2f64.powi(e);
+            v.push(next_down(p));
+            v.push(p);
+            v.push(next_up(p));
+        }
+    }
+    if b < 1000 {
+        let h = q.shr(1).to_f64(); // ~ q/2
+        v.push(next_down(next_down(h)));
+        v.push(h);
+        v.push(next_up(next_up(h)));
+        let qf = q.to_f64();
+        v.push(next_down(next_down(qf)));
+        v.push(next_up(next_up(qf)));
+        v.push(qf * 3.0);
+    }
+    v
+}
+
+fn int_alphabet(moduli: &[u64], q: &BigU) -> Vec<i64> {
+    let qmin = *moduli.iter().min().unwrap() as i64;
+    let qmax = *moduli.iter().max().unwrap() as i64;
+    let mut v: Vec<i64> = vec![0, 1, -1, 2, -2];
+    for x in [qmin - 1, qmin, qmin + 1, qmax - 1, qmax, qmax + 1, 2 * qmin + 3, 5_000_000, 1 << 40, (1 << 62) + 12345, i64::MAX] {
+        v.push(x);
+        v.push(-x);
+    }
+    v.push(i64::MIN);
+    // modulus-relative values
+    let b = q.bits();
+    for e in [b as i64 - 4, b as i64 - 3, b as i64 - 2, b as i64 - 1] {
+        if (1..63).contains(&e) {
+            let p = 1i64 << e;
+            for x in [p - 1, p, p + 1] {
+                v.push(x);
+                v.push(-x);
+            }
+        }
+    }
+    if let Some(qq) = q.to_u64() {
+        if qq < (1u64 << 62) {
+            let h = (qq / 2) as i64;
+            for x in [h - 1, h, h + 1, h + 2, qq as i64 - 1, qq as i64, qq as i64 + 1] {
+                v.push(x);
+                v.push(-x);
+            }
+        }
+    }
+    v.sort();
+    v.dedup();
+    v
+}
+
+fn array_inputs(slots: usize, thorough: bool) -> Vec<Vec<C>> {
+    let a = complex_alphabet();
+    let mut out: Vec<Vec<C>> = vec![vec![]];
+    if slots <= 2 {
+        // every vector of every length over the alphabet
+        let mut layer: Vec<Vec<C>> = vec![vec![]];
+        for _ in 0..slots {
+            let mut next = vec![];
+            for v in &layer {
+                for &x in &a {
+                    let mut w = v.clone();
+                    w.push(x);
+                    next.push(w);
+                }
+            }
+            out.extend(next.iter().cloned());
+            layer = next;
+        }
+        return out;
+    }
+    // unit vectors
+    for j in 0..slots {
+        for &x in &a[1..] {
+            let mut w = vec![(0.0, 0.0); slots];
+            w[j] = x;
+            out.push(w);
+        }
+    }
+    // constant prefixes of every length
+    for len in 1..=slots {
+        for &x in &a {
+            out.push(vec![x; len]);
+        }
+    }
+    // mixed
+    for t in 0..a.len() {
+        out.push((0..slots).map(|j| a[(t + 5 * j) % a.len()]).collect());
+        if thorough {
+            out.push((0..slots).map(|j| a[(t + 7 * j + j * j) % a.len()]).collect());
+        }
+    }
+    // all pairs in the first two slots, rest zero (dense interaction of two slots)
+    if thorough {
+        for &x in &a {
+            for &y in &a {
+                let mut w = vec![(0.0, 0.0); slots];
+                w[0] = x;
+                w[1] = y;
+                out.push(w);
+            }
+        }
+    }
+    out
+}
+
+fn poly_inputs(n: usize, reals: &[f64]) -> Vec<Vec<f64>> {
+    let mut out = vec![];
+    for len in 1..=n {
+        // constant lists
+        for &x in reals {
+            out.push(vec![x; len]);
+        }
+        // one non-zero coefficient in the last position
+        for &x in reals {
+            let mut w = vec![0.0; len];
+            w[len - 1] = x;
+            out.push(w);
+        }
+        // mixed
+        for t in 0..3usize {
+            out.push((0..len).map(|j| reals[(t * 7 + 3 * j) % reals.len()]).collect());
+        }
+    }
+    out
+}
+
+fn inputs_for(c: &Case, n: usize, moduli: &[u64], q: &BigU, thorough: bool) -> Vec<Input> {
+    let slots = n / 2;
+    let sc = c.scale.value();
+    let pow2 = matches!(c.scale, Sc::Pow2(_)) && sc.is_finite() && sc > 0.0;
+    // reals of the group
+    let reals: Vec<f64> = match c.group {
+        Group::Plain => real_alphabet(),
+        Group::Edge => edge_reals(),
+        Group::Fit => {
+            let mut v = vec![];
+            if pow2 {
+                for m in fit_magnitudes(q) {
+                    let x = m / sc; // exact (power of two), may over/underflow for extreme scales
+                    if x.is_finite() && x * sc == m {
+                        v.push(x);
+                        v.push(-x);
+                    }
+                }
+            }
+            v.push(f64::MAX);
+            v.push(-f64::MAX);
+            v.push(f64::INFINITY);
+            v.push(f64::NEG_INFINITY);
+            v
+        }
+    };
+    match c.entry {
+        Entry::F64Single => reals.into_iter().map(Input::F).collect(),
+        Entry::I64Single => int_alphabet(moduli, q).into_iter().map(Input::I).collect(),
+        Entry::C64Single => match c.group {
+            Group::Plain => complex_alphabet().into_iter().map(Input::Cx).collect(),
+            _ => {
+                let mut v = vec![];
+                for &x in &reals {
+                    v.push(Input::Cx((x, 0.0)));
+                    v.push(Input::Cx((0.0, x)));
+                    v.push(Input::Cx((x, -x)));
+                }
+                v
+            }
+        },
+        Entry::C64Array => match c.group {
+            Group::Plain => array_inputs(slots, thorough && slots <= 8).into_iter().map(Input::Arr).collect(),
+            _ => {
+                let mut v = vec![];
+                for &x in &reals {
+                    v.push(Input::Arr(vec![(x, 0.0); slots])); // constant: coefficient 0 = x*scale
+                    v.push(Input::Arr(vec![(x, 0.0)])); // one slot: coefficients x*scale*2/N*cos(..)
+                    v.push(Input::Arr((0..slots).map(|j| if j % 2 == 0 { (0.0, x) } else { (0.0, -x) }).collect()));
+                }
+                v
+            }
+        },
+        Entry::F64Poly => match c.group {
+            Group::Plain => poly_inputs(n, &real_alphabet()).into_iter().map(Input::Poly).collect(),
+            _ => {
+                let mut v = vec![];
+                for &x in &reals {
+                    v.push(Input::Poly(vec![x]));
+                    v.push(Input::Poly(vec![1.0, x]));
+                    let mut w = vec![0.25; n];
+                    w[n - 1] = x;
+                    v.push(Input::Poly(w));
+                }
+                v
+            }
+        },
+    }
+}
+
+// ---------------------------------------------------------------------------------------------
+// reference
+// ---------------------------------------------------------------------------------------------
+
+struct Expect {
+    /// expected integer coefficient per position (None: scaled value not finite)
+    big: Option<Vec<BigI>>,
+    /// the real number the coefficient approximates (approximate entries: scale * naive embedding)
+    real: Vec<f64>,
+    /// per-coefficient allowance (absolute)
+    tol: Vec<f64>,
+    /// |v|_inf of the input
+    vmax: f64,
+    /// the input slots (what decode has to give back), None for the coefficient list
+    slots: Option<Vec<C>>,
+}
+
+fn expect(inp: &Input, n: usize, scale: f64) -> Expect {
+    let slots = n / 2;
+    let logn = (n.trailing_zeros() as f64).max(1.0);
+    let zero = || BigI::new(false, BigU::zero());
+    match inp {
+        Input::Arr(_) | Input::Cx(_) => {
+            let vals: Vec<C> = match inp {
+                Input::Arr(v) => v.clone(),
+                Input::Cx(z) => vec![*z; slots],
+                _ => unreachable!(),
+            };
+            let vmax = vals.iter().map(|z| z.0.hypot(z.1)).fold(0.0, f64::max);
+            let x = inv_embed(&vals, n);
+            let real: Vec<f64> = x.iter().map(|&v| v * scale).collect();
+            let finite = real.iter().all(|r| r.is_finite()) && vmax.is_finite() && (vmax * scale).is_finite();
+            let bnd = 0.5 + (n as f64) * logn * 2f64.powi(-52) * scale * vmax;
+            let mut full = vals.clone();
+            full.resize(slots, (0.0, 0.0));
+            Expect {
+                big: if finite { Some(real.iter().map(|&r| big_round_f64(r)).collect()) } else { None },
+                tol: vec![bnd; n],
+                real,
+                vmax,
+                slots: Some(full),
+            }
+        }
+        Input::F(v) => {
+            let p = v * scale;
+            let mut real = vec![0.0; n];
+            real[0] = p;
+            let mut tol = vec![0.0; n];
+            let big = if v.is_finite() && p.is_finite() {
+                let (b, exact) = big_round_product(*v, scale);
+                if !exact {
+                    tol[0] = 1.0 + p.abs() * 2f64.powi(-52);
+                }
+                let mut bv = vec![zero(); n];
+                bv[0] = b;
+                Some(bv)
+            } else {
+                None
+            };
+            Expect { big, real, tol, vmax: v.abs(), slots: Some(vec![(*v, 0.0); slots]) }
+        }
+        Input::I(v) => {
+            let mut bv = vec![zero(); n];
+            bv[0] = BigI::from_i128(*v as i128);
+            let mut real = vec![0.0; n];
+            real[0] = *v as f64;
+            Expect { big: Some(bv), real, tol: vec![0.0; n], vmax: (*v as f64).abs(), slots: Some(vec![(*v as f64, 0.0); slots]) }
+        }
+        Input::Poly(vs) => {
+            let mut real = vec![0.0; n];
+            let mut tol = vec![0.0; n];
+            let mut bv = vec![zero(); n];
+            let mut finite = true;
+            for (k, v) in vs.iter().enumerate() {
+                let p = v * scale;
+                real[k] = p;
+                if v.is_finite() && p.is_finite() {
+                    let (b, exact) = big_round_product(*v, scale);
+                    if !exact {
+                        tol[k] = 1.0 + p.abs() * 2f64.powi(-52);
+                    }
+                    bv[k] = b;
+                } else {
+                    finite = false;
+                }
+            }
+            Expect { big: if finite { Some(bv) } else { None }, real, tol, vmax: vs.iter().fold(0.0, |a, v| a.max(v.abs())), slots: None }
+        }
+    }
+}
+
+/// the level with `primes` coefficient primes
+fn level(ctx: &Arc<HeContext>, primes: usize) -> Option<ContextDataPointer> {
+    let mut cd = ctx.key_context_data();
+    while let Some(c) = cd {
+        if c.parms().coeff_modulus().len() == primes {
+            return Some(c);
+        }
+        cd = c.next_context_data();
+    }
+    None
+}
+
+/// Plaintext -> ONE centred integer coefficient vector (or a description of what is inconsistent)
+fn coefficients(pt: &Plaintext, cd: &ContextDataPointer, n: usize, moduli: &[u64], q: &BigU) -> Result<Vec<BigI>, (String, String)> {
+    let k = moduli.len();
+    if pt.data().len() != n * k || pt.coeff_count() != n * k {
+        return Err(("shape".into(), format!("data len {} coeff_count {} for N={n} k={k}", pt.data().len(), pt.coeff_count())));
+    }
+    for j in 0..k {
+        if let Some(x) = pt.data()[j * n..(j + 1) * n].iter().find(|&&x| x >= moduli[j]) {
+            return Err(("residue-range".into(), format!("component {j} holds {x} >= {}", moduli[j])));
+        }
+    }
+    let mut data = pt.data().clone();
+    let tables = cd.small_ntt_tables();
+    for j in 0..k {
+        tables[j].inverse_ntt_negacyclic_harvey(&mut data[j * n..(j + 1) * n]);
+        // independent confirmation of the coefficient form: naive forward transform gives the plaintext back
+        let fwd = naive_ntt(&data[j * n..(j + 1) * n], tables[j].root(), moduli[j]);
+        if fwd[..] != pt.data()[j * n..(j + 1) * n] {
+            return Err(("ntt-form".into(), format!("component {j}: naive NTT of the library's inverse NTT differs from the plaintext")));
+        }
+    }
+    let mut out = Vec::with_capacity(n);
+    for i in 0..n {
+        let res: Vec<u64> = (0..k).map(|j| data[j * n + i]).collect();
+        let x = crt(&res, moduli);
+        out.push(centered(&x, q));
+    }
+    Ok(out)
+}
+
+fn fmt_input(i: &Input) -> String {
+    match i {
+        Input::Arr(v) => format!("values={:?}", v),
+        Input::F(v) => format!("value={:e} (bits {:#018x})", v, v.to_bits()),
+        Input::Cx(z) => format!("value=({:e},{:e})", z.0, z.1),
+        Input::I(v) => format!("value={v}"),
+        Input::Poly(v) => format!("coefficients={:?}", v),
+    }
+}
+
+fn fmt_big(b: &BigI) -> String {
+    format!("{}{}", if b.neg { "-" } else { "" }, b.mag.to_hex())
+}
+
+fn mag_class(m: &BigU) -> &'static str {
+    let two64 = BigU::pow2(64);
+    let two128 = BigU::pow2(128);
+    let near = |p: &BigU| {
+        let d = if m > p { m.sub(p) } else { p.sub(m) };
+        d.shl(40) <= *p
+    };
+    if *m == two64 {
+        "eq2^64"
+    } else if *m == two128 {
+        "eq2^128"
+    } else if near(&two64) {
+        "near2^64"
+    } else if near(&two128) {
+        "near2^128"
+    } else if m.bits() <= 64 {
+        "w1"
+    } else if m.bits() <= 128 {
+        "w2"
+    } else {
+        "w3+"
+    }
+}
+
+fn is_invalid_argument(p: &str) -> bool {
+    p.starts_with("[Invalid argument]")
+}
+
+struct Kit12 {
+    ctx: Arc<HeContext>,
+    enc: CKKSEncoder,
+}
+
+fn call_encode(k: &Kit12, inp: &Input, id: heathcliff::ParmsID, scale: f64, dirty: Option<&Plaintext>) -> Result<Plaintext, String> {
+    let enc = &k.enc;
+    match dirty {
+        None => guard(|| match inp {
+            Input::Arr(v) => enc.encode_c64_array_new(&v.iter().map(|z| Complex::new(z.0, z.1)).collect::<Vec<_>>(), Some(id), scale),
+            Input::F(v) => enc.encode_f64_single_new(*v, Some(id), scale),
+            Input::Cx(z) => enc.encode_c64_single_new(Complex::new(z.0, z.1), Some(id), scale),
+            Input::I(v) => enc.encode_i64_single_new(*v, Some(id)),
+            Input::Poly(v) => enc.encode_f64_polynomial_new(v, Some(id), scale),
+        }),
+        Some(d) => guard(|| {
+            let mut dest = d.clone();
+            match inp {
+                Input::Arr(v) => enc.encode_c64_array(&v.iter().map(|z| Complex::new(z.0, z.1)).collect::<Vec<_>>(), Some(id), scale, &mut dest),
+                Input::F(v) => enc.encode_f64_single(*v, Some(id), scale, &mut dest),
+                Input::Cx(z) => enc.encode_c64_single(Complex::new(z.0, z.1), Some(id), scale, &mut dest),
+                Input::I(v) => enc.encode_i64_single(*v, Some(id), &mut dest),
+                Input::Poly(v) => enc.encode_f64_polynomial(v, Some(id), scale, &mut dest),
+            }
+            dest
+        }),
+    }
+}
+
+fn call_encode_default_level(k: &Kit12, inp: &Input, scale: f64) -> Result<Plaintext, String> {
+    let enc = &k.enc;
+    guard(|| match inp {
+        Input::Arr(v) => enc.encode_c64_array_new(&v.iter().map(|z| Complex::new(z.0, z.1)).collect::<Vec<_>>(), None, scale),
+        Input::F(v) => enc.encode_f64_single_new(*v, None, scale),
+        Input::Cx(z) => enc.encode_c64_single_new(Complex::new(z.0, z.1), None, scale),
+        Input::I(v) => enc.encode_i64_single_new(*v, None),
+        Input::Poly(v) => enc.encode_f64_polynomial_new(v, None, scale),
+    })
+}
+
+#[derive(PartialEq, Clone, Copy, Debug)]
+enum Zone {
+    MustAccept,
+    May,
+    MustRefuse,
+}
+
+fn check(section: &str, c: &Case, seed: u64, thorough: bool) -> CaseOut {
+    let tag = h64(&serde_json::to_string(c).unwrap_or_default());
+    env_real(seed, tag);
+    let n = c.spec.n;
+    let ctx = match guard(|| c.spec.context()) {
+        Ok(x) => x,
+        Err(p) => return CaseOut::skip(&format!("context construction panicked: {}", panic_class(&p))),
+    };
+    if !ctx.parameters_set() {
+        return CaseOut::skip("parameter set rejected by the library");
+    }
+    let Some(cd) = level(&ctx, c.level_primes) else { return CaseOut::skip("no such level") };
+    let kit = Kit12 { enc: CKKSEncoder::new(ctx.clone()), ctx: ctx.clone() };
+    let id = *cd.parms_id();
+    let moduli: Vec<u64> = cd.parms().coeff_modulus().iter().map(|m| m.value()).collect();
+    if moduli[..] != c.spec.q[..c.level_primes] {
+        return CaseOut::fail(format!("{section}:chain:level-moduli"), format!("{:?}", &c.spec.q[..c.level_primes]), format!("{:?}", moduli));
+    }
+    let q = BigU::product(&moduli);
+    let b = q.bits();
+    if cd.total_coeff_modulus_bit_count() != b {
+        return CaseOut::fail(format!("{section}:chain:bit-count"), format!("{b}"), format!("{}", cd.total_coeff_modulus_bit_count()));
+    }
+    let words = (b + 63) / 64;
+    let is_first = id == *ctx.first_parms_id();
+    let data_level = cd.chain_index() <= ctx.first_context_data().unwrap().chain_index();
+    let scale = if c.entry == Entry::I64Single { 1.0 } else { c.scale.value() };
+    let scale_ok = scale > 0.0 && scale.is_finite() && BigI::cmp(&big_round_f64(scale.max(1.0)), &BigI::from_u(BigU::pow2(b - 1))) == std::cmp::Ordering::Less;
+    let entry = c.entry.name();
+    let approx = c.entry.approx();
+    let lo = BigU::pow2(b.saturating_sub(3));
+
+    // a destination with foreign content for the in-place form
+    let dirty = {
+        let mut p = Plaintext::new();
+        p.resize(n * moduli.len() + 3);
+        for (i, x) in p.data_mut().iter_mut().enumerate() {
+            *x = 0x9E37_79B9_7F4A_7C15u64.wrapping_mul(i as u64 + seed) | 1;
+        }
+        p.set_scale(12345.0);
+        p
+    };
+
+    let inputs = inputs_for(c, n, &moduli, &q, thorough);
+    let mut steps = 0u64;
+    let mut nontrivial = false;
+    let mut classes: BTreeSet<String> = BTreeSet::new();
+    let mut worst_ratio = 0.0f64;
+
+    // more values than slots / coefficients are refused
+    if c.group == Group::Plain && scale_ok {
+        let too_long = match c.entry {
+            Entry::C64Array => Some(Input::Arr(vec![(1.0, 0.0); n / 2 + 1])),
+            Entry::F64Poly => Some(Input::Poly(vec![1.0; n + 1])),
+            _ => None,
+        };
+        if let Some(inp) = too_long {
+            steps += 1;
+            match call_encode(&kit, &inp, id, scale, None) {
+                Ok(_) => return CaseOut::fail(format!("{section}:{entry}:too-long-accepted"), format!("refused: {} values for N={n}", n / 2 + 1), "accepted"),
+                Err(p) => {
+                    classes.insert(format!("too-long:{}", panic_class(&p)));
+                }
+            }
+        }
+    }
+
+    for (idx, inp) in inputs.iter().enumerate() {
+        let ex = expect(inp, n, scale);
+        let ctxt = || format!("{} level_primes={} moduli={:?} scale={:e} {}", c.spec.label(), c.level_primes, moduli, scale, fmt_input(inp));
+        // ---- admissibility
+        let maxmag: Option<BigU> = ex.big.as_ref().map(|v| v.iter().map(|x| x.mag.clone()).max().unwrap());
+        let zone = if !scale_ok {
+            Zone::MustRefuse
+        } else {
+            match &maxmag {
+                None => Zone::MustRefuse, // infinite scaled magnitude
+                Some(m) => {
+                    let fuzz = if approx { m.shr(40).add(&BigU::from_u64(2)) } else { BigU::zero() };
+                    let hi = m.add(&fuzz);
+                    let low = if *m > fuzz { m.sub(&fuzz) } else { BigU::zero() };
+                    if hi < lo {
+                        Zone::MustAccept
+                    } else if low.shl(1) > q {
+                        Zone::MustRefuse
+                    } else {
+                        Zone::May
+                    }
+                }
+            }
+        };
+        let res = call_encode(&kit, inp, id, scale, None);
+        steps += 1;
+        let pt = match (res, zone) {
+            (Err(p), Zone::MustAccept) => {
+                return CaseOut::fail(
+                    format!("{section}:{entry}:valid-input-refused:{}", panic_class(&p)),
+                    format!("accepted: scaled magnitude {} is below 2^{} ({})", maxmag.as_ref().map(|m| m.to_hex()).unwrap_or_default(), b - 3, ctxt()),
+                    p,
+                )
+            }
+            (Err(p), _) => {
+                if !is_invalid_argument(&p) {
+                    if p.contains("overflow") && zone == Zone::MustRefuse {
+                        return CaseOut::fail(
+                            format!("{section}:{entry}:refusal-only-by-overflow-check:{}", panic_class(&p)),
+                            format!("an [Invalid argument] refusal ({})", ctxt()),
+                            format!("{p} — an arithmetic-overflow panic exists only in overflow-checked builds; a default release build wraps and accepts"),
+                        );
+                    }
+                    if zone != Zone::MustRefuse {
+                        return CaseOut::fail(format!("{section}:{entry}:crash:{}", panic_class(&p)), format!("accepted or [Invalid argument] ({})", ctxt()), p);
+                    }
+                }
+                classes.insert(format!("refused:{:?}:{}", zone, panic_class(&p)));
+                // the in-place form must refuse as well
+                if idx % 4 == 0 {
+                    if let Ok(_p2) = call_encode(&kit, inp, id, scale, Some(&dirty)) {
+                        return CaseOut::fail(format!("{section}:{entry}:forms-disagree-on-refusal"), format!("in-place form refuses like the _new form ({})", ctxt()), "in-place form accepted");
+                    }
+                    steps += 1;
+                }
+                continue;
+            }
+            (Ok(pt), Zone::MustRefuse) => {
+                let why = if !scale_ok {
+                    format!("scale-accepted:{}", if scale.is_nan() { "nan" } else if scale > 0.0 { "oversized" } else { c.scale.class() })
+                } else if maxmag.is_none() {
+                    "accepted-infinite".to_string()
+                } else {
+                    "accepted-not-fitting".to_string()
+                };
+                return CaseOut::fail(
+                    format!("{section}:{entry}:{why}"),
+                    format!("refused: {} ({})", if !scale_ok { format!("scale must be > 0 and < 2^{}", b - 1) } else { format!("scaled magnitude {} >= q/2, q={}", maxmag.as_ref().map(|m| m.to_hex()).unwrap_or("inf".into()), q.to_hex()) }, ctxt()),
+                    format!("accepted; plaintext scale={:e} data[..{}]={:?}", pt.scale(), n.min(8), &pt.data()[..n.min(8).min(pt.data().len())]),
+                );
+            }
+            (Ok(pt), _) => pt,
+        };
+        let big = ex.big.as_ref().unwrap();
+        let maxmag = maxmag.unwrap();
+        // for the approximate entry points the library's own magnitude may differ from the reference's by the
+        // transform error: within that fuzz of q/2 nothing can be compared
+        let fits = if approx { maxmag.add(&maxmag.shr(40)).add(&BigU::from_u64(2)).shl(1) < q } else { maxmag.shl(1) < q };
+        classes.insert(format!("accepted:{:?}:{}:fits={}", zone, mag_class(&maxmag), fits));
+        // ---- metadata
+        let meta_ok = pt.parms_id() == &id && pt.is_ntt_form() && pt.scale().to_bits() == scale.to_bits() && pt.coeff_count() == n * moduli.len();
+        if !meta_ok {
+            return CaseOut::fail(
+                format!("{section}:{entry}:metadata"),
+                format!("parms_id of the level, NTT form, scale {:e}, coeff_count {} ({})", scale, n * moduli.len(), ctxt()),
+                format!("parms_id ok={} ntt={} scale={:e} coeff_count={}", pt.parms_id() == &id, pt.is_ntt_form(), pt.scale(), pt.coeff_count()),
+            );
+        }
+        // ---- one integer vector
+        let coeffs = match coefficients(&pt, &cd, n, &moduli, &q) {
+            Ok(v) => v,
+            Err((what, d)) => return CaseOut::fail(format!("{section}:{entry}:{what}"), format!("well-formed NTT-form plaintext ({})", ctxt()), d),
+        };
+        if fits {
+            for k in 0..n {
+                let d = coeffs[k].sub(&big[k]);
+                let mut err = d.to_f64();
+                if approx {
+                    // big[k] = round(real[k]); add the rounding residual back to compare with the real number
+                    let r = ex.real[k];
+                    if r.abs() < 4.5e15 {
+                        err += r.round() - r;
+                    }
+                }
+                let tol = ex.tol[k];
+                if !(err.abs() <= tol) {
+                    return CaseOut::fail(
+                        format!("{section}:{entry}:wrong-coefficient:{}", mag_class(&maxmag)),
+                        format!("coefficient {k} = {} (= round(scale*preimage) = round({:e})) within {:e} ({})", fmt_big(&big[k]), ex.real[k], tol, ctxt()),
+                        format!("coefficient {k} = {} (difference {:e}); all: {:?}", fmt_big(&coeffs[k]), err, coeffs.iter().map(fmt_big).collect::<Vec<_>>()),
+                    );
+                }
+                if tol > 0.0 && approx {
+                    worst_ratio = worst_ratio.max((err.abs() - 0.5).max(0.0) / (tol - 0.5).max(1e-300));
+                }
+            }
+            if coeffs.iter().any(|x| !x.mag.is_zero()) {
+                nontrivial = true;
+            }
+        } else {
+            // may zone on the far side of q/2 (only within the fuzz of the approximate entries): nothing to compare
+            continue;
+        }
+        // ---- the in-place form on a dirty destination and the default level give the same plaintext
+        match call_encode(&kit, inp, id, scale, Some(&dirty)) {
+            Ok(p2) => {
+                steps += 1;
+                if p2.data() != pt.data() || p2.parms_id() != pt.parms_id() || p2.scale().to_bits() != pt.scale().to_bits() || p2.coeff_count() != pt.coeff_count() {
+                    return CaseOut::fail(
+                        format!("{section}:{entry}:forms-differ"),
+                        format!("in-place form on a used destination = _new form ({})", ctxt()),
+                        format!("_new: {:?} in-place: {:?} coeff_count {} vs {}", &pt.data()[..n.min(8)], &p2.data()[..n.min(8).min(p2.data().len())], pt.coeff_count(), p2.coeff_count()),
+                    );
+                }
+            }
+            Err(p) => return CaseOut::fail(format!("{section}:{entry}:forms-differ:{}", panic_class(&p)), format!("in-place form accepts like _new ({})", ctxt()), p),
+        }
+        if is_first && idx % 8 == 0 {
+            match call_encode_default_level(&kit, inp, scale) {
+                Ok(p3) if p3.data() == pt.data() && p3.parms_id() == pt.parms_id() => steps += 1,
+                Ok(_) => return CaseOut::fail(format!("{section}:{entry}:default-level"), format!("parms_id None = first level ({})", ctxt()), "different plaintext"),
+                Err(p) => return CaseOut::fail(format!("{section}:{entry}:default-level:{}", panic_class(&p)), format!("parms_id None = first level ({})", ctxt()), p),
+            }
+        }
+        // ---- decoding
+        // decoding is judged on data levels and for magnitudes below 2^1000 (doubles end at 2^1024)
+        if !data_level || maxmag.bits() > 1000 {
+            continue;
+        }
+        if !pt.is_valid_for(&kit.ctx) {
+            return CaseOut::fail(format!("{section}:{entry}:not-valid-for-context"), format!("is_valid_for ({})", ctxt()), "false");
+        }
+        let cf: Vec<f64> = coeffs.iter().map(|x| x.to_f64() / scale).collect();
+        let mx = cf.iter().fold(0.0f64, |a, x| a.max(x.abs()));
+        let nn = n as f64;
+        let logn = (n.trailing_zeros() as f64).max(1.0);
+        let u = 2f64.powi(-52);
+        // coefficient view
+        match guard(|| kit.enc.decode_polynomial_new(&pt)) {
+            Err(p) => return CaseOut::fail(format!("{section}:{entry}:decode-polynomial:{}", panic_class(&p)), format!("decodes ({})", ctxt()), p),
+            Ok(dp) => {
+                steps += 1;
+                for k in 0..n {
+                    let tol = (words as f64 + 4.0) * u * cf[k].abs();
+                    if dp.len() != n || !((dp[k] - cf[k]).abs() <= tol) {
+                        // a few units in the last places on a NEGATIVE coefficient: the word-wise q - c in doubles (see section decode_borrow)
+                        let small = dp.len() == n && coeffs[k].neg && (dp[k] - cf[k]).abs() <= cf[k].abs() * 2f64.powi(-40);
+                        return CaseOut::fail(
+                            format!("{section}:{entry}:decode-polynomial-wrong{}", if small { ":negative-cancellation" } else { "" }),
+                            format!("coefficient {k} / scale = {:e} within {:e} (integer coefficient {}) ({})", cf[k], tol, fmt_big(&coeffs[k]), ctxt()),
+                            format!("{:e} (len {})", dp.get(k).copied().unwrap_or(f64::NAN), dp.len()),
+                        );
+                    }
+                    if let Input::Poly(vs) = inp {
+                        let v = vs.get(k).copied().unwrap_or(0.0);
+                        let tolv = (0.5 + ex.tol[k]) / scale + (words as f64 + 4.0) * u * v.abs();
+                        if !((dp[k] - v).abs() <= tolv) {
+                            return CaseOut::fail(format!("{section}:{entry}:decode-polynomial-input"), format!("coefficient {k} = {:e} within {:e} ({})", v, tolv, ctxt()), format!("{:e}", dp[k]));
+                        }
+                    }
+                }
+            }
+        }
+        // slot view
+        match guard(|| kit.enc.decode_new(&pt)) {
+            Err(p) => return CaseOut::fail(format!("{section}:{entry}:decode:{}", panic_class(&p)), format!("decodes ({})", ctxt()), p),
+            Ok(dec) => {
+                steps += 1;
+                let refs = fwd_embed(&cf, n);
+                let tol_a = (nn * logn + words as f64 + 4.0) * u * nn * mx;
+                if dec.len() != n / 2 {
+                    return CaseOut::fail(format!("{section}:{entry}:decode-wrong"), format!("{} slots ({})", n / 2, ctxt()), format!("{}", dec.len()));
+                }
+                for j in 0..n / 2 {
+                    let e = (dec[j].re - refs[j].0).abs().max((dec[j].im - refs[j].1).abs());
+                    if !(e <= tol_a) {
+                        return CaseOut::fail(
+                            format!("{section}:{entry}:decode-wrong"),
+                            format!("slot {j} = embedding of the plaintext's integer vector = ({:e},{:e}) within {:e} ({})", refs[j].0, refs[j].1, tol_a, ctxt()),
+                            format!("({:e},{:e})", dec[j].re, dec[j].im),
+                        );
+                    }
+                    if let Some(sl) = &ex.slots {
+                        let tolc = ex.tol.iter().fold(0.0f64, |a, &t| a.max(t)) + if approx { 0.0 } else { 0.5 };
+                        let tol_b = nn * tolc / scale + tol_a + (nn * logn + 4.0) * u * nn * ex.vmax;
+                        let e = (dec[j].re - sl[j].0).abs().max((dec[j].im - sl[j].1).abs());
+                        if !(e <= tol_b) {
+                            return CaseOut::fail(
+                                format!("{section}:{entry}:decode-input"),
+                                format!("slot {j} = input ({:e},{:e}) within {:e} ({})", sl[j].0, sl[j].1, tol_b, ctxt()),
+                                format!("({:e},{:e})", dec[j].re, dec[j].im),
+                            );
+                        }
+                    }
+                }
+            }
+        }
+    }
+    let _ = worst_ratio;
+    if inputs.is_empty() {
+        return CaseOut::skip("value group empty for this scale (modulus-relative values need a power-of-two scale)");
+    }
+    CaseOut::pass(nontrivial, h64(&(entry, classes.iter().cloned().collect::<Vec<_>>())), steps)
+}
+
+// ---------------------------------------------------------------------------------------------
+// section `embedding`
+// ---------------------------------------------------------------------------------------------
+
+fn check_embedding(c: &EmbCase, seed: u64) -> CaseOut {
+    env_real(seed, h64(&serde_json::to_string(c).unwrap_or_default()));
+    if let Err(e) = crate::refmodel::embed::selftest() {
+        return CaseOut::fail("embedding:reference-selftest", "reference self-test passes", e);
+    }
+    let n = c.spec.n;
+    let ctx = c.spec.context();
+    if !ctx.parameters_set() {
+        return CaseOut::skip("parameter set rejected by the library");
+    }
+    let enc = CKKSEncoder::new(ctx.clone());
+    let cd = ctx.first_context_data().unwrap();
+    let moduli: Vec<u64> = cd.parms().coeff_modulus().iter().map(|m| m.value()).collect();
+    let q = BigU::product(&moduli);
+    let scale = 2f64.powi(40);
+    let mut vals = vec![(0.0, 0.0); n / 2];
+    vals[c.slot] = if c.imag { (0.0, 1.0) } else { (1.0, 0.0) };
+    let pt = match guard(|| enc.encode_c64_array_new(&vals.iter().map(|z| Complex::new(z.0, z.1)).collect::<Vec<_>>(), None, scale)) {
+        Ok(p) => p,
+        Err(p) => return CaseOut::fail(format!("embedding:encode:{}", panic_class(&p)), "unit vector encodes", p),
+    };
+    let coeffs = match coefficients(&pt, &cd, n, &moduli, &q) {
+        Ok(v) => v,
+        Err((w, d)) => return CaseOut::fail(format!("embedding:{w}"), "well-formed plaintext", d),
+    };
+    let x = inv_embed(&vals, n);
+    let mut steps = 1;
+    for k in 0..n {
+        let want = x[k] * scale;
+        let got = coeffs[k].to_f64();
+        if !((got - want).abs() <= 0.5 + 1e-3) {
+            return CaseOut::fail(
+                "embedding:slot-order",
+                format!("N={n} slot {} value {}: coefficient {k} = 2^40 * (2/N) Re(z * zeta^(-3^slot * k)) = {want:e}", c.slot, if c.imag { "i" } else { "1" }),
+                format!("{got:e}; all {:?}", coeffs.iter().map(|c| c.to_f64()).collect::<Vec<_>>()),
+            );
+        }
+    }
+    // decoding puts it back into the same slot
+    match guard(|| enc.decode_new(&pt)) {
+        Err(p) => return CaseOut::fail(format!("embedding:decode:{}", panic_class(&p)), "decodes", p),
+        Ok(d) => {
+            steps += 1;
+            for j in 0..n / 2 {
+                if !((d[j].re - vals[j].0).abs() <= 1e-9 && (d[j].im - vals[j].1).abs() <= 1e-9) {
+                    return CaseOut::fail("embedding:decode-slot-order", format!("N={n} slot {j} = {:?}", vals[j]), format!("({:e},{:e})", d[j].re, d[j].im));
+                }
+            }
+        }
+    }
+    CaseOut::pass(true, h64(&(n, c.imag)), steps)
+}
+
+// ---------------------------------------------------------------------------------------------
+// section `decode_borrow`
+// ---------------------------------------------------------------------------------------------
+
+#[derive(Serialize, Deserialize, Clone, Debug)]
+pub struct BorrowCase {
+    pub spec: ParamSpec,
+    pub value: i64,
+}
+
+/// two NTT primes p1 (bits1) and p2 (<= 60 bits) whose product has a low 64-bit word smaller than p1
+pub fn small_low_word_chain(n: usize, bits1: usize) -> Option<Vec<u64>> {
+    let p1 = ntt_primes(n, bits1, 1)[0];
+    let two64 = 1u128 << 64;
+    // p2 = ceil(k*2^64 / p1)  =>  p1*p2 - k*2^64 in [0, p1)
+    let kmax = (p1 as u128 * (1u128 << 60)) >> 64;
+    let mut k = kmax;
+    while k > (kmax >> 4) {
+        let p2 = ((k * two64 + p1 as u128 - 1) / p1 as u128) as u64;
+        if p2 < (1u64 << 60) && p2 % (2 * n as u64) == 1 && p2 != p1 && is_prime_u64(p2) {
+            return Some(vec![p1, p2]);
+        }
+        k -= 1;
+    }
+    None
+}
+
+fn check_borrow(c: &BorrowCase, seed: u64) -> CaseOut {
+    env_real(seed, h64(&serde_json::to_string(c).unwrap_or_default()));
+    let n = c.spec.n;
+    let ctx = c.spec.context();
+    if !ctx.parameters_set() {
+        return CaseOut::skip("parameter set rejected by the library");
+    }
+    let enc = CKKSEncoder::new(ctx.clone());
+    let cd = ctx.first_context_data().unwrap();
+    let moduli: Vec<u64> = cd.parms().coeff_modulus().iter().map(|m| m.value()).collect();
+    let q = BigU::product(&moduli);
+    let low_word = q.low_limbs(1)[0];
+    let pt = match guard(|| enc.encode_i64_single_new(c.value, None)) {
+        Ok(p) => p,
+        Err(p) => return CaseOut::skip(&format!("refused: {}", panic_class(&p))),
+    };
+    let coeffs = match coefficients(&pt, &cd, n, &moduli, &q) {
+        Ok(v) => v,
+        Err((w, d)) => return CaseOut::fail(format!("decode_borrow:{w}"), "well-formed plaintext", d),
+    };
+    if coeffs[0] != BigI::from_i128(c.value as i128) || coeffs[1..].iter().any(|x| !x.mag.is_zero()) {
+        return CaseOut::fail("decode_borrow:encode", format!("constant polynomial {}", c.value), format!("{:?}", coeffs.iter().map(fmt_big).collect::<Vec<_>>()));
+    }
+    let words = (q.bits() + 63) / 64;
+    let tol = (words as f64 + 4.0) * 2f64.powi(-52) * (c.value as f64).abs();
+    let borrow = c.value < 0 && (c.value.unsigned_abs() > low_word);
+    let dp = match guard(|| enc.decode_polynomial_new(&pt)) {
+        Ok(d) => d,
+        Err(p) => return CaseOut::fail(format!("decode_borrow:decode-polynomial:{}", panic_class(&p)), "decodes", p),
+    };
+    if !((dp[0] - c.value as f64).abs() <= tol) {
+        return CaseOut::fail(
+            "decode_borrow:decode-polynomial-wrong",
+            format!("coefficient 0 = {} within {:e} (q = {}, low word {} {} |value|)", c.value, tol, q.to_hex(), low_word, if borrow { "<" } else { ">=" }),
+            format!("{:.1} (error {:e})", dp[0], dp[0] - c.value as f64),
+        );
+    }
+    let d = match guard(|| enc.decode_new(&pt)) {
+        Ok(d) => d,
+        Err(p) => return CaseOut::fail(format!("decode_borrow:decode:{}", panic_class(&p)), "decodes", p),
+    };
+    for j in 0..n / 2 {
+        if !((d[j].re - c.value as f64).abs() <= tol * 4.0 && d[j].im.abs() <= tol * 4.0) {
+            return CaseOut::fail(
+                "decode_borrow:decode-wrong",
+                format!("slot {j} = {} within {:e} (q = {}, low word {})", c.value, tol * 4.0, q.to_hex(), low_word),
+                format!("({:.1},{:e})", d[j].re, d[j].im),
+            );
+        }
+    }
+    CaseOut::pass(borrow, h64(&(borrow, c.value < 0)), 3)
+}
+
+// ---------------------------------------------------------------------------------------------
+// enumeration
+// ---------------------------------------------------------------------------------------------
+
+fn chains(n: usize, _thorough: bool) -> Vec<Vec<usize>> {
+    // bit sizes of the key-level chain (the last prime is the special prime when there are >= 2)
+    let mut v: Vec<Vec<usize>> = vec![
+        vec![20],
+        vec![30],
+        vec![60],
+        vec![20, 20],
+        vec![40, 30],
+        vec![20, 20, 20],
+        vec![60, 60, 60],
+        vec![50, 30, 60, 40],
+        vec![20; 6],
+        vec![60; 6],
+    ];
+    if n >= 8 {
+        v.push(vec![40]);
+        v.push(vec![50]);
+        v.push(vec![60, 20]);
+        v.push(vec![25, 45, 35, 55, 21, 59]);
+    }
+    v
+}
+
+fn scales(b: usize, thorough: bool) -> Vec<Sc> {
+    let b = b as i32;
+    let mut exps: Vec<i32> = vec![0, 10, 30, 50, 62, 63, 64, 66, 100, 126, 127, 128, 130, b - 4, b - 3, b - 2];
+    if thorough {
+        exps.extend([1, 20, 40, 61, 65, 96, 125, 129, 192, 256, 500, b - 5, b - 10, b - 64, b - 128]);
+    }
+    exps.retain(|&e| e >= 0 && e <= b - 2 && e <= 990);
+    exps.sort();
+    exps.dedup();
+    let mut v: Vec<Sc> = exps.into_iter().map(Sc::Pow2).collect();
+    v.push(Sc::Pow2(-3));
+    for (m, e) in [(3.0, 20), (1e6, 0), (1.5, 64), (0.75, 0), (1.1, 100)] {
+        let s: f64 = m * 2f64.powi(e);
+        if s.log2() + 2.0 < b as f64 {
+            v.push(Sc::Mul { m, e });
+        }
+    }
+    // inadmissible
+    v.extend([Sc::Zero, Sc::NegZero, Sc::Neg(0), Sc::Neg(30), Sc::Nan, Sc::Inf, Sc::NegInf]);
+    for e in [b - 1, b, b + 10] {
+        if e < 1020 {
+            v.push(Sc::Pow2(e));
+        }
+    }
+    v
+}
+
+/// (degree, key-chain bit sizes, levels given as number of primes, use the thorough scale grid)
+fn universe(thorough: bool) -> Vec<(usize, Vec<usize>, Vec<usize>, bool)> {
+    let mut out = vec![];
+    let all_levels = |k: usize| (1..=k).rev().collect::<Vec<usize>>();
+    if !thorough {
+        for n in [2usize, 4, 8, 16] {
+            for bits in chains(n, false) {
+                let k = bits.len();
+                out.push((n, bits, all_levels(k), false));
+            }
+        }
+        return out;
+    }
+    for n in [2usize, 4, 8, 16, 32] {
+        for bits in chains(8, false) {
+            let k = bits.len();
+            out.push((n, bits, all_levels(k), n <= 8));
+        }
+    }
+    // long chains: 19 data primes + special prime, every level
+    for bits in [vec![30; 20], vec![50; 20], vec![60; 20], (0..20).map(|i| 20 + 2 * i + (i % 3)).collect::<Vec<usize>>()] {
+        out.push((8, bits, all_levels(20), false));
+    }
+    // large degree
+    for bits in [vec![60], vec![20, 20, 20], vec![60, 60, 60], vec![20; 6], vec![60; 6]] {
+        let k = bits.len();
+        out.push((64, bits, all_levels(k), false));
+    }
+    out.push((64, vec![50; 20], vec![20, 19, 12, 5, 2, 1], false));
+    out
+}
+
+fn cases_for(entries: &[Entry], cfg: &RunCfg) -> Vec<Case> {
+    let mut out = vec![];
+    for (n, bits, levels, fine) in universe(cfg.thorough()) {
+        let q = chain(n, &bits);
+        let spec = ParamSpec::new(Scheme::CKKS, n, q.clone(), 0);
+        for lp in levels {
+            let b = BigU::product(&q[..lp]).bits();
+            for &entry in entries {
+                if entry == Entry::I64Single {
+                    out.push(Case { spec: spec.clone(), level_primes: lp, entry, scale: Sc::Pow2(0), group: Group::Plain });
+                    continue;
+                }
+                for sc in scales(b, fine) {
+                    let groups: &[Group] = if matches!(sc, Sc::Pow2(e) if e >= 0) { &[Group::Plain, Group::Edge, Group::Fit] } else { &[Group::Plain] };
+                    for &group in groups {
+                        out.push(Case { spec: spec.clone(), level_primes: lp, entry, scale: sc, group });
+                    }
+                }
+            }
+        }
+    }
+    // simplest first: small degree, few primes, plain group
+    out.sort_by_key(|c| (c.spec.n, c.spec.q.len(), c.level_primes, c.group as u8 as usize));
+    out
+}
+
+pub fn sections(cfg: &RunCfg) -> Vec<Box<dyn AnySection>> {
+    let seed = cfg.seed;
+    let thorough = cfg.thorough();
+    let mut v: Vec<Box<dyn AnySection>> = vec![];
+
+    // embedding
+    let mut emb = vec![];
+    let degrees: Vec<usize> = if thorough { vec![2, 4, 8, 16, 32, 64] } else { vec![2, 4, 8, 16] };
+    for &n in &degrees {
+        let spec = ParamSpec::new(Scheme::CKKS, n, chain(n, &[60, 60]), 0);
+        for slot in 0..n / 2 {
+            for imag in [false, true] {
+                emb.push(EmbCase { spec: spec.clone(), slot, imag });
+            }
+        }
+    }
+    v.push(
+        E1::new(
+            "embedding",
+            "N = 2..16 (64 thorough), every slot, values 1 and i, scale 2^40: coefficients of the unit vectors and decoding back into the same slot",
+            emb.into_iter(),
+            move |c: &EmbCase| check_embedding(c, seed),
+        )
+        .deadline(Duration::from_secs(30)),
+    );
+
+    let uni: Vec<String> = universe(thorough)
+        .iter()
+        .map(|(n, bits, levels, fine)| {
+            let b: String = if bits.len() > 6 && bits.iter().all(|x| *x == bits[0]) { format!("{}x{}", bits[0], bits.len()) } else { format!("{:?}", bits) };
+            format!("N{n}:{b}{}{}", if levels.len() == bits.len() { String::new() } else { format!("@levels{:?}", levels) }, if *fine { "+" } else { "" })
+        })
+        .collect();
+    let bound = |what: &str| {
+        format!(
+            "{what}; (degree:key-chain bit sizes, '+' = fine scale grid) {}; every level incl. key level unless listed; scales 2^e, e in {{0,10,30,50,62,63,64,66,100,126,127,128,130,B-4,B-3,B-2}} (fine grid adds {{1,20,40,61,65,96,125,129,192,256,500,B-5,B-10,B-64,B-128}}) capped at 2^990, + 2^-3, 3*2^20, 1e6, 1.5*2^64, 0.75, 1.1*2^100 + inadmissible {{0,-0,-1,-2^30,NaN,+-inf,2^(B-1),2^B,2^(B+10)}}; groups plain/edge/fit (edge, fit only for 2^e scales)",
+            uni.join(" ")
+        )
+    };
+    let mut main_sections = vec![];
+    for (name, entries, what, share) in [
+        ("single", vec![Entry::F64Single, Entry::C64Single, Entry::I64Single], "encode_f64_single (26 reals), encode_c64_single (18 complex), encode_i64_single (boundary integers incl. +-(q_i-1..q_i+1), i64::MIN/MAX, modulus-relative)", 0.3),
+        ("coefflist", vec![Entry::F64Poly], "encode_f64_polynomial: every length 1..N, constant / last-coefficient / mixed lists over 26 reals", 0.5),
+        ("vector", vec![Entry::C64Array], "encode_c64_array: alphabet of 18 complex values; all vectors of all lengths for N<=4, unit/constant-prefix/mixed vectors beyond", 1.0),
+    ] {
+        let cases = cases_for(&entries, cfg);
+        let sec = name.to_string();
+        main_sections.push(E1::new(name, &bound(what), cases.into_iter(), move |c: &Case| check(&sec, c, seed, thorough)).deadline(Duration::from_secs(120)).share(if thorough { share } else { 1.0 }));
+    }
+
+    // decode_borrow
+    let mut bc = vec![];
+    let bdeg: &[usize] = if thorough { &[2, 4, 8, 16] } else { &[4, 8] };
+    for &n in bdeg {
+        for bits1 in [20usize, 30] {
+            if let Some(q) = small_low_word_chain(n, bits1) {
+                // single data level: use the pair as the data level by adding a special prime
+                let mut qq = q.clone();
+                let sp = ntt_primes(n, 59, 3).into_iter().find(|p| !q.contains(p)).unwrap();
+                qq.push(sp);
+                let spec = ParamSpec::new(Scheme::CKKS, n, qq, 0);
+                let low = BigU::product(&q).low_limbs(1)[0] as i64;
+                for mag in [low + 1, 1, low - 1, low, low + 1023, 2 * low + 7, (1i64 << 30) + 1023, (1i64 << 40) + 1, (1i64 << 52) + 1] {
+                    bc.push(BorrowCase { spec: spec.clone(), value: -mag });
+                    bc.push(BorrowCase { spec: spec.clone(), value: mag });
+                }
+            }
+        }
+    }
+    v.push(
+        E1::new(
+            "decode_borrow",
+            "two-prime data levels whose modulus has a low 64-bit word below 2^20 / 2^30 (searched: p2 = ceil(k*2^64/p1)); integers +-{1, w-1, w, w+1, w+1023, 2w+7, 2^30+1023, 2^40+1, 2^52+1} (w = low word) through encode_i64_single, decode and decode_polynomial",
+            bc.into_iter(),
+            move |c: &BorrowCase| check_borrow(c, seed),
+        )
+        .deadline(Duration::from_secs(30)),
+    );
+    for m in main_sections {
+        v.push(m);
+    }
+    v
 }
